@@ -111,7 +111,7 @@ func TestRefAgreement3(t *testing.T) {
 	rec := ev.Get()
 	rapid.Check(t, func(t *rapid.T) {
 		S := rapid.SampledFrom([]float64{1, 10, 100}).Draw(t, "scale")
-		n := shape.Gen3(t, shape.Opts{S: S, Depth: rapid.IntRange(1, depthFor()).Draw(t, "depth"), Grammar: shape.Full, Special: true, NoText: true})
+		n := shape.Gen3(t, shape.Opts{S: S, Depth: rapid.IntRange(1, depthFor()).Draw(t, "depth"), Grammar: shape.Full, Special: true, NoText: true, UniformRoot: rapid.Bool().Draw(t, "uniform-root")})
 		b, err := shape.Build(n)
 		if err != nil {
 			if _, ok := err.(shape.ErrDomain); ok {
@@ -191,7 +191,7 @@ func TestRefAgreement2(t *testing.T) {
 	rec := ev.Get()
 	rapid.Check(t, func(t *rapid.T) {
 		S := rapid.SampledFrom([]float64{1, 10, 100}).Draw(t, "scale")
-		n := shape.Gen2(t, shape.Opts{S: S, Depth: rapid.IntRange(1, depthFor()).Draw(t, "depth"), Grammar: shape.Full, Special: true, NoText: true})
+		n := shape.Gen2(t, shape.Opts{S: S, Depth: rapid.IntRange(1, depthFor()).Draw(t, "depth"), Grammar: shape.Full, Special: true, NoText: true, UniformRoot: rapid.Bool().Draw(t, "uniform-root")})
 		b, err := shape.Build(n)
 		if err != nil {
 			if _, ok := err.(shape.ErrDomain); ok {
@@ -424,7 +424,7 @@ func TestCacheHistory(t *testing.T) {
 		c := sdf.Cache2D(s)
 		bb := s.BoundingBox()
 		var hist []v2.Vec
-		repeats, zeros := 0, 0
+		repeats, zeros, neighbours := 0, 0, 0
 		t.Repeat(map[string]func(*rapid.T){
 			"fresh": func(t *rapid.T) {
 				cc, h := bb.Center(), bb.Size()
@@ -437,6 +437,36 @@ func TestCacheHistory(t *testing.T) {
 				}
 				hist = append(hist, hist[rapid.IntRange(0, len(hist)-1).Draw(t, "i")])
 				repeats++
+			},
+			"neighbour": func(t *rapid.T) {
+				// a point a few units in the last place (or a relative 1e-12..1e-6) away from an earlier
+				// query, or an earlier query with its coordinates swapped / one of them negated: distinct
+				// points that a lossy cache key would identify
+				if len(hist) == 0 {
+					t.Skip("empty history")
+				}
+				p := hist[rapid.IntRange(0, len(hist)-1).Draw(t, "i")]
+				nudge := func(x float64, l string) float64 {
+					switch rapid.IntRange(0, 2).Draw(t, l+".how") {
+					case 0:
+						return g.Ulp(x, rapid.IntRange(-4, 4).Draw(t, l+".ulps"))
+					case 1:
+						return x * (1 + g.LogUniform(t, l+".rel", 1e-12, 1e-6)*float64(1-2*rapid.IntRange(0, 1).Draw(t, l+".sign")))
+					}
+					return x
+				}
+				switch rapid.IntRange(0, 3).Draw(t, "kind") {
+				case 0:
+					p = v2.Vec{X: nudge(p.X, "x"), Y: nudge(p.Y, "y")}
+				case 1:
+					p = v2.Vec{X: p.Y, Y: p.X}
+				case 2:
+					p = v2.Vec{X: -p.X, Y: p.Y}
+				default:
+					p = v2.Vec{X: p.X, Y: -p.Y}
+				}
+				hist = append(hist, p)
+				neighbours++
 			},
 			"zero": func(t *rapid.T) {
 				z := []float64{0, math.Copysign(0, -1)}
@@ -462,7 +492,7 @@ func TestCacheHistory(t *testing.T) {
 				}
 			},
 		})
-		rec.Case(repeats > 0, ev.Key(n.String(), len(hist), repeats, zeros), "cache")
+		rec.Case(repeats > 0, ev.Key(n.String(), len(hist), repeats, zeros, neighbours), "cache", fmt.Sprintf("cache:near-duplicate-queries=%v", neighbours > 0))
 		rec.Sample("cache", map[string]any{"program": n.String(), "queries": len(hist), "repeats": repeats, "signed_zero_queries": zeros})
 	})
 }
